@@ -225,6 +225,18 @@ func msiName(r *core.Rng, n int) []uint16 {
 	return out
 }
 
+// freshName draws MSI-style names until one is new among the siblings recorded in used.
+func freshName(r *core.Rng, used map[string]bool, n int) []uint16 {
+	for {
+		nm := msiName(r, n)
+		k := fmt.Sprint(nm)
+		if !used[k] {
+			used[k] = true
+			return nm
+		}
+	}
+}
+
 func fillNode(r *core.Rng, n *Node) *Node {
 	if r.Chance(50) {
 		copy(n.Clsid[:], r.Bytes(16))
@@ -247,8 +259,9 @@ var boundarySizes = []int{0, 1, 63, 64, 65, 511, 512, 513, 4095, 4096, 4097, 819
 // profile builds the root content: 0 mini only, 1 big only (no mini stream), 2 mixed with boundary sizes, 3 nested storages
 func profile(r *core.Rng, p int) *Node {
 	root := fillNode(r, &Node{Storage: true})
+	used := map[string]bool{}
 	add := func(parent *Node, sz int) {
-		parent.Kids = append(parent.Kids, stream(r, msiName(r, 3+r.Intn(9)), sz))
+		parent.Kids = append(parent.Kids, stream(r, freshName(r, used, 3+r.Intn(9)), sz))
 	}
 	switch p {
 	case 0:
@@ -458,8 +471,9 @@ func init() {
 		// many root entries, long names
 		{
 			root := fillNode(r, &Node{Storage: true})
+			used := map[string]bool{}
 			for i := 0; i < 45; i++ {
-				root.Kids = append(root.Kids, stream(r, msiName(r, 1+i%31), boundarySizes[i%len(boundarySizes)]))
+				root.Kids = append(root.Kids, stream(r, freshName(r, used, 1+i%31), boundarySizes[i%len(boundarySizes)]))
 			}
 			root.Kids = append(root.Kids, stream(r, u16(strings.Repeat("N", 31)), 10))
 			run("many-entries", "46 root streams", Build(&Spec{Root: root, FreeMini: 4}), []op{{kind: "sign", size: 9000, exsize: 32}, {kind: "sign", size: 2000, exsize: 32}})
